@@ -248,8 +248,19 @@ def _shard_main(mod, prop, tier, seed, index, out):
     _limit_memory()
     plan = mod.plan(tier, seed)
     ctx = run_shard(mod, prop, tier, seed, index, plan[index])
+    res = ctx.result()
+    try:
+        text = json.dumps(res)
+    except (RecursionError, ValueError, TypeError):
+        for v in res["violations"]:
+            try:
+                json.dumps(v["witness"])
+            except (RecursionError, ValueError, TypeError) as e:
+                v["witness"] = {"unserialisable_witness": type(e).__name__, "repr": repr(v["witness"])[:2000]}
+        res["samples"] = []
+        text = json.dumps(res, default=repr)
     with open(out, "w") as f:
-        json.dump(ctx.result(), f)
+        f.write(text)
     with open(out + ".hashes", "wb") as f:
         array.array("q", list(ctx._distinct)).tofile(f)
 
@@ -314,9 +325,14 @@ def _write_replay(prop, v, tier, seed):
     os.makedirs(os.path.join(OUT, "replays"), exist_ok=True)
     tag = hashlib.sha256(v["key"].encode("utf-8", "replace")).hexdigest()[:12]
     path = os.path.join(OUT, "replays", f"{prop}-{tag}.json")
+    rec = {"property": prop, "key": v["key"], "msg": v["msg"], "count": v["count"], "tier": tier, "seed": seed, "witness": v["witness"]}
+    try:
+        text = json.dumps(rec, indent=1, default=repr)
+    except (RecursionError, ValueError, TypeError) as e:
+        rec["witness"] = {"unserialisable_witness": f"{type(e).__name__}: the recorded case could not be written as JSON", "repr": repr(v["witness"])[:2000]}
+        text = json.dumps(rec, indent=1, default=repr)
     with open(path, "w") as f:
-        json.dump({"property": prop, "key": v["key"], "msg": v["msg"], "count": v["count"],
-                   "tier": tier, "seed": seed, "witness": v["witness"]}, f, indent=1, default=repr)
+        f.write(text)
     return path
 
 
